@@ -23,10 +23,10 @@ type pathCond struct {
 }
 
 type cfgPath struct {
-	blocks []*ssa.BasicBlock
-	conds  []pathCond
-	end    *ssa.BasicBlock // last block (ends in Return/Panic or is a stop block)
-	stopped bool           // set by the caller when the stop block is the loop header the path started below: its phis stay symbolic
+	blocks  []*ssa.BasicBlock
+	conds   []pathCond
+	end     *ssa.BasicBlock // last block (ends in Return/Panic or is a stop block)
+	stopped bool            // set by the caller when the stop block is the loop header the path started below: its phis stay symbolic
 }
 
 // enumPaths enumerates paths from start until a block without successors or a
